@@ -484,7 +484,7 @@ Fixpoint dict_from_items (acc : kvs) (l : list val) : res kvs :=
 (* _merge_dicts: for every key of the left dict that the right one has too - nested dicts are merged recursively
    (maxLevels counts the levels still to descend, 0 = no bound, 1 = stop), sequences by the list merger
    (default: distinct of the concatenation), everything else by the item merger (default: the right value);
-   then the keys only the right dict has.  The result, and every merged sub-dict, is a plain dict. *)
+   then the keys only the right dict has.  The result, and every merged sub-dict, is a FrozenDict. *)
 Definition is_seq (v : val) : bool := match v with VList _ _ => true | _ => false end.
 Fixpoint merge_dicts (fuel : nat) (d1 d2 : kvs) (lm im : option lam2) (maxl : Z) : res kvs :=
   match fuel with
@@ -507,7 +507,7 @@ Fixpoint merge_dicts (fuel : nat) (d1 d2 : kvs) (lm im : option lam2) (maxl : Z)
                                 match v1 with
                                 | VDict _ e1 =>
                                     match merge_dicts fu e1 e2 lm im (if Z.eqb maxl 0 then 0%Z else (maxl - 1)%Z) with
-                                    | Ok m => Ok ((k, VDict true m) :: rest)
+                                    | Ok m => Ok ((k, VDict false m) :: rest)
                                     | e => e
                                     end
                                 | _ => Err EType
@@ -596,7 +596,7 @@ Definition apply_stage (fuel : nat) (s : st) (sg : stage) (r : rv) : rr :=
   | SAccumulate f seed => with_it s r (fun i => ok_it s (AccStart f seed i))
   | SInsert pos v =>
       match r with
-      | RVal (VList _ l) => ok_val s (VList true (list_insert_l l pos v))
+      | RVal (VList _ l) => ok_val s (VList false (list_insert_l l pos v))
       | RSet _ => no_match s
       | _ => with_it s r (fun i => ok_it s (InsertAt pos v 0 i))
       end
@@ -605,7 +605,7 @@ Definition apply_stage (fuel : nat) (s : st) (sg : stage) (r : rv) : rr :=
                                      else InsertMany pos (OfList vs) 0 i))
   | SDelete pos cnt =>
       match r with
-      | RDict _ d => (s, Ok (RDict true (dict_delete_all d (VInt pos :: match cnt with Some c => [VInt c] | None => [] end))))
+      | RDict _ d => (s, Ok (RDict false (dict_delete_all d (VInt pos :: match cnt with Some c => [VInt c] | None => [] end))))
       | _ => with_it s r (fun i => ok_it s (DeleteAt pos (match cnt with Some c => c | None => 1%Z end) 0 i))
       end
   | SReplace pos v cnt =>
@@ -636,7 +636,7 @@ Definition apply_stage (fuel : nat) (s : st) (sg : stage) (r : rv) : rr :=
   | SJoin l2 p f => with_it s r (fun i => ok_it s (Join p f l2 None i))
   | SSplitAt n =>
       with_list fuel s r (fun s1 l =>
-        let '(a, b) := split_at_l l n in ok_val s1 (VList true [VList false a; VList false b]))
+        let '(a, b) := split_at_l l n in ok_val s1 (VList false [VList false a; VList false b]))
   | SSplitWhere p => with_it s r (fun i => ok_it s (Collect (CSplitWhere p) [] i))
   | SSliceWhere p => with_it s r (fun i => ok_it s (Collect (CSliceWhere p) [] i))
   | SToList =>
@@ -762,7 +762,7 @@ Definition apply_stage (fuel : nat) (s : st) (sg : stage) (r : rv) : rr :=
       with_list fuel s r (fun s1 l =>
         let s2 := tick_n (length l * (match v with Some _ => 2 | None => 1 end)) s1 in
         if forallb (fun x => hashable (apply k x)) l then
-          (s2, Ok (RDict true (dict_of_items (map (fun x => (apply k x, match v with Some g => apply g x | None => x end)) l))))
+          (s2, Ok (RDict false (dict_of_items (map (fun x => (apply k x, match v with Some g => apply g x | None => x end)) l))))
         else (s2, Err EType))
   | SDictFromItems =>
       with_list fuel s r (fun s1 l =>
@@ -777,15 +777,15 @@ Definition apply_stage (fuel : nat) (s : st) (sg : stage) (r : rv) : rr :=
       | _ => no_match s
       end
   | SDictDelete ks =>
-      match r with RDict _ d => (s, Ok (RDict true (dict_delete_all d ks))) | _ => (s, Unsupported) end
+      match r with RDict _ d => (s, Ok (RDict false (dict_delete_all d ks))) | _ => (s, Unsupported) end
   | SDictDeleteAll ks =>
-      match r with RDict _ d => (s, Ok (RDict true (dict_delete_all d ks))) | _ => no_match s end
+      match r with RDict _ d => (s, Ok (RDict false (dict_delete_all d ks))) | _ => no_match s end
   | SDictPlus e =>
       match r with RDict _ d => (s, Ok (RDict false (dict_update_l d (dict_of_items e)))) | _ => no_match s end
   | SMergeWith e =>
       match r with
       | RDict _ d => match merge_dicts 6 d (dict_of_items e) None None 0 with
-                     | Ok x => (s, Ok (RDict true x)) | Err er => (s, Err er) | _ => (s, Unsupported) end
+                     | Ok x => (s, Ok (RDict false x)) | Err er => (s, Err er) | _ => (s, Unsupported) end
       | _ => no_match s
       end
   | SKeysList => match r with RDict _ d => ok_val s (VList false (map fst d)) | _ => no_match s end
@@ -875,7 +875,7 @@ Definition apply_stage (fuel : nat) (s : st) (sg : stage) (r : rv) : rr :=
   | SMergeWithX e lm im maxl =>
       match r with
       | RDict _ d => match merge_dicts 6 d (dict_of_items e) lm im maxl with
-                     | Ok x => (s, Ok (RDict true x)) | Err er => (s, Err er) | _ => (s, Unsupported) end
+                     | Ok x => (s, Ok (RDict false x)) | Err er => (s, Err er) | _ => (s, Unsupported) end
       | _ => no_match s
       end
   | SAssertAny =>
@@ -1145,4 +1145,67 @@ Definition lkcase_ok (c : lkcase) : bool :=
   match lk_vals c with
   | OCap => match o with ONone => true | _ => Nat.ltb CAP (pulls s) end
   | v => obs_eqb o v && Nat.eqb (pulls s) (lk_pulls c) && Nat.eqb (ticks s) (lk_ticks c)
+  end.
+
+(* ---- raw kinds (yaql.convertOutputData = false) -------------------------------------------------------------- *)
+(* what a function hands on, with the container kinds as they are: tuple / list, FrozenDict / dict.  A lazy result
+   is observed through the tuple of its elements, a set through (the list of) its members. *)
+Fixpoint val_kind_eqb (a b : val) : bool :=
+  match a, b with
+  | VNull, VNull => true
+  | VBool x, VBool y => Bool.eqb x y
+  | VInt x, VInt y => Z.eqb x y
+  | VStr x, VStr y => list_eqb Z.eqb x y
+  | VList m l, VList m' l' =>
+      Bool.eqb m m' &&
+      (fix go (l l' : list val) : bool :=
+         match l, l' with [], [] => true | x :: r, y :: r' => val_kind_eqb x y && go r r' | _, _ => false end) l l'
+  | VDict m d, VDict m' d' =>
+      Bool.eqb m m' &&
+      (fix go (d d' : list (val * val)) : bool :=
+         match d, d' with
+         | [], [] => true
+         | (k, v) :: r, (k', v') :: r' => val_kind_eqb k k' && val_kind_eqb v v' && go r r'
+         | _, _ => false
+         end) d d'
+  | _, _ => false
+  end.
+
+Definition raw_result (fuel : nat) (s : st) (r : rv) : option val :=
+  match r with
+  | RVal v => Some v
+  | RDict m d => Some (VDict m d)
+  | RSet _ => None
+  | _ => match as_it r with
+         | Some i => match drain fuel s i with (_, Ok l) => Some (VList false l) | _ => None end
+         | None => None
+         end
+  end.
+
+Record rcase := { r_src : source; r_stages : list stage; r_val : val }.
+Definition rcase_ok (c : rcase) : bool :=
+  match source_rv (r_src c) with
+  | Ok r => match apply_stages FUEL st0 (r_stages c) r with
+            | (s, Ok r1) => match raw_result FUEL s r1 with Some v => val_kind_eqb v (r_val c) | None => false end
+            | _ => false
+            end
+  | _ => false
+  end.
+
+(* the kinds a function may hand on: no Python list, no Python dict, at any depth *)
+Fixpoint frozen (v : val) : bool :=
+  match v with
+  | VList m l => negb m && forallb frozen l
+  | VDict m d => negb m && forallb (fun kv => match kv with (k, x) => frozen k && frozen x end) d
+  | _ => true
+  end.
+Definition top_frozen (r : rv) : bool :=
+  match r with RVal (VList m _) | RVal (VDict m _) | RDict m _ => negb m | _ => true end.
+(* the functions that BUILD a container (as opposed to handing on their receiver or one of its elements) *)
+Definition builds (sg : stage) : bool :=
+  match sg with
+  | SInsert _ _ | SSplitAt _ | SToList | SToSet | SToDict _ _ | SDictFromItems | SDictSet _ _ | SDictDelete _ | SDictDeleteAll _
+  | SDictPlus _ | SMergeWith _ | SMergeWithX _ _ _ _ | SKeysList | SValuesList | SItemsList | SPlus _ | SListOf _
+  | SUnion _ | SIntersect _ | SDifference _ | SSymDiff _ | SSetAdd _ | SSetRemove _ | SUnpackNamed _ | SUnpackIdx _ => true
+  | _ => false
   end.
